@@ -1,0 +1,165 @@
+//go:build verif
+
+// Contracts for parse.go (see /verif/DESIGN.md section 7: C10, C02, C17, C01, C04, C06).
+// Comment-only file, compiled only under the build tag `verif`.
+
+package bcl
+
+// ---------------------------------------------------------------------------
+// Ghost state of the emission model (specification only; no code).
+//
+//@ group C10
+//@ ghost var sd int          // modelled operand-stack depth at the current emission point
+//@ ghost var pend int        // operands still owed to the last opcode (typestate F0/FU/FUU/FUB/FJ/FB)
+//@ ghost var lastop opcode   // the opcode whose operands are being emitted
+//@ ghost var bd int          // open blocks
+//@ ghost var uninit int      // 1 between declVar and defVar
+//@ ghost var jd map[int]int  // depth recorded for the jump placeholder at an offset
+//@ ghost var jopen map[int]bool  // placeholder at this offset not yet patched
+//@ ghost var njopen int      // number of unpatched placeholders
+//@ ghost var maxtarget int   // largest jump target patched so far
+//@ ghost var consumed int    // tokens received from the lexer (progress measure)
+//@ ghost var lastfin bool    // the last token received was a finalizer (tEOF/tFAIL)
+//@ ghost var diags int       // diagnostics written to the log
+//
+// ---------------------------------------------------------------------------
+// Object invariants of the parser (required and ensured by every function
+// under contract that takes a *parser, unless it opts out with `noinv`).
+//
+//@ invariant ptrs (p *parser): p.scope != nil && p.prog != nil && p.lexer != nil && p.linePos != nil && p.identRefs != nil
+//@ invariant locals_range (p *parser): 0 <= p.scope.localCount && p.scope.localCount <= 1024 && p.scope.depth >= 0 && (g.uninit == 0 || g.uninit == 1) && g.uninit <= p.scope.localCount
+//@ invariant code_pos (p *parser): len(p.prog.code) == len(p.prog.positions)
+//@ invariant above_locals (p *parser): p.hadError || g.sd >= p.scope.localCount - g.uninit
+//@ invariant pool (p *parser): forall k string :: has(p.identRefs, k) ==> 0 <= p.identRefs[k] && p.identRefs[k] < len(p.prog.constants) && p.prog.constants[p.identRefs[k]] == VStr(k)
+//@ invariant tok_range (p *parser): 0 <= p.prev.typ && p.prev.typ < tMAX && 0 <= p.current.typ && p.current.typ < tMAX
+//@ invariant fin (p *parser): g.lastfin ==> p.current.typ <= tEOF
+//@ invariant [C17] panic_err (p *parser): p.panicMode ==> p.hadError
+//@ invariant [C17] diag_err (p *parser): p.hadError <==> g.diags > 0
+//@ invariant blocks_open (p *parser): p.hadError || g.bd >= 0
+//@ invariant [C02] uninit_last (p *parser): g.uninit == 1 ==> p.scope.locals[p.scope.localCount-1].depth == 0 - 1
+
+// ---------------------------------------------------------------------------
+// prog.go: emission primitives on the Prog
+//
+//@ group C10,C08
+//@ func (*Prog).write
+//@   ensures code_appended: len(p.code) == old(len(p.code)) + 1 && p.code[len(p.code)-1] == b
+//@   ensures pos_appended: len(p.positions) == old(len(p.positions)) + 1 && p.positions[len(p.positions)-1] == pos
+//@   ensures code_prefix: forall i int :: 0 <= i && i < old(len(p.code)) ==> p.code[i] == old(p.code[i])
+//@   ensures pos_prefix: forall i int :: 0 <= i && i < old(len(p.positions)) ==> p.positions[i] == old(p.positions[i])
+//@   ensures same_or_new_arrays: (arr(p.code) == old(arr(p.code)) || isnew(p.code)) && (arr(p.positions) == old(arr(p.positions)) || isnew(p.positions))
+//@   modifies p.code, p.positions
+//
+//@ func (*Prog).addConst
+//@   ensures index: idx == old(len(p.constants)) && len(p.constants) == old(len(p.constants)) + 1 && p.constants[idx] == v
+//@   ensures prefix: forall i int :: 0 <= i && i < old(len(p.constants)) ==> p.constants[i] == old(p.constants[i])
+//@   ensures same_or_new_array: arr(p.constants) == old(arr(p.constants)) || isnew(p.constants)
+//@   modifies p.constants
+
+// ---------------------------------------------------------------------------
+// lexer interface as seen by the parser. The token channel protocol is
+// assumed here (trusted) and is the lexer side's obligation (C11):
+// the channel is closed only after a finalizer token, token types are in
+// range, and an error token carries an error.
+//
+//@ group C06,C17
+//@ func (*lexer).nextToken
+//@   trusted
+//@   ensures in_range: result1 ==> 0 <= result0.typ && result0.typ < tMAX
+//@   ensures err_set: result1 && result0.typ == tERR ==> result0.err != nil
+//@   ensures closed_after_fin: !result1 ==> old(g.lastfin)
+//@   modifies nothing
+//@   ghost lastfin = result1 ? result0.typ <= tEOF : g.lastfin; consumed = result1 ? g.consumed + 1 : g.consumed
+//
+//@ func newLexer
+//@   ensures result != nil
+//@   modifies nothing
+
+// ---------------------------------------------------------------------------
+// diagnostics
+//
+//@ group C17,C06,C10
+//@ func (*parser).errorAt
+//@   noinv above_locals
+//@   ensures reported: p.hadError && p.panicMode
+//@   modifies p.hadError, p.panicMode
+//@   ghost diags = g.diags + 1
+
+// ---------------------------------------------------------------------------
+// emission primitives of the parser
+//
+//@ group C10,C06
+//@ func (*parser).emitOp
+//@   noinv above_locals
+//@   requires known_opcode: knownOp(op)
+//@   requires never_loop: op != opLOOP
+//@   requires no_pending_operand: p.hadError || g.pend == F0()
+//@   requires operands_present: p.hadError || g.sd >= needOf(op)
+//@   requires block_open: p.hadError || op != opENDBLOCK || g.bd >= 1
+//@   requires ret_clean: p.hadError || op != opRET || (g.sd == 0 && g.bd == 0 && g.njopen == 0 && g.maxtarget <= len(p.prog.code))
+//@   ensures appended: len(p.prog.code) == old(len(p.prog.code)) + 1 && p.prog.code[len(p.prog.code)-1] == byte(op)
+//@   ensures [C08] position: p.prog.positions[len(p.prog.positions)-1] == p.prev.pos
+//@   ensures code_prefix: forall i int :: 0 <= i && i < old(len(p.prog.code)) ==> p.prog.code[i] == old(p.prog.code[i])
+//@   ensures [C08] pos_prefix: forall i int :: 0 <= i && i < old(len(p.prog.positions)) ==> p.prog.positions[i] == old(p.prog.positions[i])
+//@   modifies Prog.code, Prog.positions, p.stats
+//@   ghost sd = g.sd + deltaOf(op); pend = fmtOf(op); lastop = op; bd = g.bd + (op == opDEFBLOCK ? 1 : op == opENDBLOCK ? 0 - 1 : 0)
+//
+//@ func (*parser).emitBytes
+//@   noinv above_locals
+//@   requires arg_not_aliasing_code: arr(bb) != arr(p.prog.code)
+//@   ensures appended: len(p.prog.code) == old(len(p.prog.code)) + len(bb) && (forall j int :: old(len(p.prog.code)) <= j && j < len(p.prog.code) ==> p.prog.code[j] == old(bb[j - len(p.prog.code)]))
+//@   ensures [C08] positions: forall i int :: old(len(p.prog.positions)) <= i && i < len(p.prog.positions) ==> p.prog.positions[i] == p.prev.pos
+//@   ensures code_prefix: forall i int :: 0 <= i && i < old(len(p.prog.code)) ==> p.prog.code[i] == old(p.prog.code[i])
+//@   ensures [C08] pos_prefix: forall i int :: 0 <= i && i < old(len(p.prog.positions)) ==> p.prog.positions[i] == old(p.prog.positions[i])
+//@   loop 1 invariant idx: 0 - 1 <= rangeindex && rangeindex < len(bb) && len(p.prog.code) == old(len(p.prog.code)) + rangeindex + 1 && len(p.prog.code) == len(p.prog.positions) && prog == p.prog && arr(bb) != arr(p.prog.code)
+//@   loop 1 invariant arg_kept: forall i int :: 0 <= i && i < len(bb) ==> bb[i] == old(bb[i])
+//@   loop 1 invariant appended: forall j int :: old(len(p.prog.code)) <= j && j < len(p.prog.code) ==> p.prog.code[j] == bb[j - old(len(p.prog.code))]
+//@   loop 1 invariant positions: forall i int :: old(len(p.prog.positions)) <= i && i < len(p.prog.positions) ==> p.prog.positions[i] == p.prev.pos
+//@   loop 1 invariant code_prefix: forall i int :: 0 <= i && i < old(len(p.prog.code)) ==> p.prog.code[i] == old(p.prog.code[i])
+//@   loop 1 invariant pos_prefix: forall i int :: 0 <= i && i < old(len(p.prog.positions)) ==> p.prog.positions[i] == old(p.prog.positions[i])
+//@   modifies Prog.code, Prog.positions
+//
+//@ func (*parser).emitByte
+//@   noinv above_locals
+//@   requires byte_operand_pending: p.hadError || g.pend == FB()
+//@   requires [C04,C10] bind_byte_valid: p.hadError || g.lastop != opBIND || validBindByte(b)
+//@   ensures appended: len(p.prog.code) == old(len(p.prog.code)) + 1 && p.prog.code[len(p.prog.code)-1] == b
+//@   ensures code_prefix: forall i int :: 0 <= i && i < old(len(p.prog.code)) ==> p.prog.code[i] == old(p.prog.code[i])
+//@   modifies Prog.code, Prog.positions
+//@   ghost pend = F0()
+//
+//@ func (*parser).emitUvarint
+//@   noinv above_locals
+//@   requires nonneg: x >= 0
+//@   requires uvarint_operand_pending: p.hadError || g.pend == FU() || g.pend == FUU() || g.pend == FUB()
+//@   requires const_exists: p.hadError || !(g.lastop == opCONST || g.lastop == opGETFIELD || g.lastop == opSETFIELD || g.lastop == opDEFBLOCK || g.lastop == opBIND) || x < len(p.prog.constants)
+//@   requires const_is_name: p.hadError || !(g.lastop == opGETFIELD || g.lastop == opSETFIELD || g.lastop == opDEFBLOCK || g.lastop == opBIND) || is_str(p.prog.constants[x])
+//@   requires slot_live: p.hadError || !(g.lastop == opGETLOCAL || g.lastop == opSETLOCAL) || x < g.sd - 1
+//@   requires popn_within_stack: p.hadError || g.lastop != opPOPN || x <= g.sd
+//@   ensures appended: len(p.prog.code) == old(len(p.prog.code)) + uvlen(uint64(x)) && (forall j int :: old(len(p.prog.code)) <= j && j < len(p.prog.code) ==> p.prog.code[j] == uvbyte(uint64(x), j - old(len(p.prog.code))))
+//@   ensures code_prefix: forall i int :: 0 <= i && i < old(len(p.prog.code)) ==> p.prog.code[i] == old(p.prog.code[i])
+//@   modifies Prog.code, Prog.positions
+//@   ghost pend = afterU(g.pend); sd = g.lastop == opPOPN ? g.sd - x : g.sd
+//
+//@ func (*parser).emitJump
+//@   noinv above_locals
+//@   requires forward_jump: op == opJUMP || op == opJFALSE
+//@   requires no_pending_operand: p.hadError || g.pend == F0()
+//@   requires operands_present: p.hadError || g.sd >= needOf(op)
+//@   ensures placeholder: result == len(p.prog.code) - 2 && len(p.prog.code) == old(len(p.prog.code)) + 3 && p.prog.code[old(len(p.prog.code))] == byte(op)
+//@   ensures code_prefix: forall i int :: 0 <= i && i < old(len(p.prog.code)) ==> p.prog.code[i] == old(p.prog.code[i])
+//@   ensures depth_kept: g.sd == old(g.sd) && g.bd == old(g.bd)
+//@   modifies Prog.code, Prog.positions, p.stats, g.sd, g.bd, g.lastop
+//@   ghost pend = F0(); jd = store(g.jd, result, g.sd); jopen = store(g.jopen, result, true); njopen = g.njopen + 1
+//
+//@ func (*parser).patchJump
+//@   noinv above_locals
+//@   requires in_code: 0 <= offset && offset + 2 <= len(p.prog.code)
+//@   requires at_instruction_boundary: p.hadError || g.pend == F0()
+//@   requires placeholder_open: p.hadError || select(g.jopen, offset)
+//@   requires same_depth_on_both_paths: p.hadError || g.sd == select(g.jd, offset)
+//@   ensures length_kept: len(p.prog.code) == old(len(p.prog.code))
+//@   ensures [C14] distance_big_endian: p.hadError || int(p.prog.code[offset]) * 256 + int(p.prog.code[offset+1]) == len(p.prog.code) - offset - 2
+//@   ensures others_kept: forall i int :: 0 <= i && i < len(p.prog.code) && i != offset && i != offset + 1 ==> p.prog.code[i] == old(p.prog.code[i])
+//@   modifies Prog.code, p.hadError, p.panicMode, g.diags
+//@   ghost jopen = store(g.jopen, offset, false); njopen = g.njopen - 1; maxtarget = g.maxtarget >= len(p.prog.code) ? g.maxtarget : len(p.prog.code)
